@@ -12,6 +12,7 @@ import (
 	"github.com/flant/shell-operator/pkg/hook/config"
 	. "github.com/flant/shell-operator/pkg/hook/task_metadata"
 	htypes "github.com/flant/shell-operator/pkg/hook/types"
+	kemtypes "github.com/flant/shell-operator/pkg/kube_events_manager/types"
 	"github.com/flant/shell-operator/pkg/metric_storage/operation"
 	"github.com/flant/shell-operator/pkg/task"
 	zz "github.com/flant/shell-operator/pkg/zzverif"
@@ -40,10 +41,21 @@ func VH_C04_allow_failure() {
 		}
 		bc := bctx.BindingContext{Binding: "b" + si}
 		bc.Metadata.BindingType = btype
-		bt := task.NewTask(HookRun).WithQueueName("main").WithMetadata(HookMetadata{
-			HookName: hooks[i], Binding: "b" + si, BindingType: btype, AllowFailure: allow[i],
-			BindingContext: []bctx.BindingContext{bc},
-		})
+		meta := HookMetadata{HookName: hooks[i], Binding: "b" + si, BindingType: btype, AllowFailure: allow[i], ExecuteOnSynchronization: true}
+		if btype == htypes.OnKubernetesEvent {
+			// kubernetes tasks are Events or Synchronizations; a grouped Synchronization may be
+			// combined with what follows (every task has its own group: no compaction here)
+			bc.Type = kemtypes.TypeEvent
+			if zz.Bool("synchronization" + si) {
+				bc.Type = kemtypes.TypeSynchronization
+			}
+			if zz.Bool("grouped" + si) {
+				meta.Group = "g" + si
+				bc.Metadata.Group = "g" + si
+			}
+		}
+		meta.BindingContext = []bctx.BindingContext{bc}
+		bt := task.NewTask(HookRun).WithQueueName("main").WithMetadata(meta)
 		bt.Id = "t" + si
 		tasks[i] = bt
 		q.AddLast(bt)
